@@ -58,6 +58,7 @@ OPTIONS: Dict[Tuple[str, ...], Tuple[str, List[Any], List[Tuple[Any, str]]]] = {
     ("resourceRequest", "memory"): ("memory", [None, 1048576, "2Gi", "512Mi"], [([1], "list-for-scalar"), ({"m": 1}, "dict-for-scalar")]),
     ("resourceRequest", "gpus"): ("int|none", [None, 1], [("some", "word-for-number"), ([1], "list-for-scalar")]),
     ("workflowAttributes", "aggregate"): ("bool", [True, False], [("perhaps", "word-for-bool"), ([True], "list-for-scalar"), ({"a": 1}, "dict-for-scalar")]),
+    ("workflowAttributes", "replicate"): ("int|none", [], [("several", "word-for-number"), ([2], "list-for-scalar")]),
     ("workflowAttributes", "shutdownOn"): ("list[str]", [[], ["KnownIssue"]], [("KnownIssue", "scalar-for-list"), (5, "scalar-for-list"), ({"a": 1}, "dict-for-list")]),
     ("workflowAttributes", "restartHookOn"): ("list[exitReason]", [["ResourceExhausted"], ["KnownIssue", "UnknownIssue"]],
                                               [("KnownIssue", "scalar-for-list"), (["Bogus"], "unknown-constant"), (7, "scalar-for-list")]),
@@ -88,6 +89,79 @@ OPTIONS: Dict[Tuple[str, ...], Tuple[str, List[Any], List[Tuple[Any, str]]]] = {
     ("executors", "pre"): ("list[executor]", [[]], [("x", "scalar-for-list"), ([{"name": "bogus", "payload": "x"}], "unknown-constant")]),
     ("executors", "post"): ("list[executor]", [[]], [(7, "scalar-for-list"), ([{"name": "bogus", "payload": "x"}], "unknown-constant")]),
 }
+
+
+# ---- mistypings by documented type --------------------------------------------------------------
+# The documented type of an option is what a user reads in the FlowIR component schema
+# (FlowIR.type_flowir_component) and in the DSL model (frontends/dsl.py); it is written down in OPTIONS.
+# For a documented type every KIND of written value gets a verdict that follows from the documentation alone,
+# never from running the loader's converter:
+#   "wrong" : the statement calls it a wrongly typed option -> the mutant is judged (must be rejected)
+#   "info"  : genuinely ambiguous - the loader documents / customarily performs a conversion (a numeric string or
+#             an integral float for an integer, 0/1 or 'yes' for a boolean, a number for a string, null for
+#             "use the default") -> the outcome on the tree under test is only recorded (info_mistype_* counters)
+#   absent  : the value is acceptable for the type, nothing is generated
+KIND_VALUES: Dict[str, List[Any]] = {
+    "nonintegral-float": [2.5, 0.5, 1.75],
+    "integral-float": [2.0, 1.0],
+    "int": [2, 0, 7],
+    "bool": [True, False],
+    "numeric-string": ["2", "1"],
+    "nonintegral-numeric-string": ["2.5", "0.5"],
+    "word": ["many", "perhaps", "soon"],
+    "bool-word": ["yes", "False"],
+    "list": [[2], ["x"]],
+    "dict": [{"n": 2}],
+    "null": [None],
+}
+W, I = "wrong", "info"
+TYPE_VERDICTS: Dict[str, Dict[str, str]] = {
+    # an integer: a number with a fraction, text that is not an integer, a container can never be one
+    "int": {"nonintegral-float": W, "integral-float": I, "bool": I, "numeric-string": I,
+            "nonintegral-numeric-string": W, "word": W, "list": W, "dict": W, "null": I},
+    # integer or floating point number
+    "number": {"bool": I, "numeric-string": I, "nonintegral-numeric-string": I, "word": W, "list": W, "dict": W,
+               "null": I},
+    "bool": {"nonintegral-float": W, "integral-float": I, "int": I, "numeric-string": I, "word": W, "bool-word": I,
+             "list": W, "dict": W, "null": I},
+    "str": {"int": I, "nonintegral-float": I, "bool": I, "list": W, "dict": W, "null": I},
+    # one of a few constants: a number is never one of them (YAML reads the constant 'no' as a boolean -> info)
+    "enum": {"int": W, "nonintegral-float": W, "bool": I, "list": W, "dict": W, "null": I},
+    "list": {"int": W, "nonintegral-float": W, "bool": W, "word": W, "dict": W, "null": I},
+    "memory": {"bool": I, "nonintegral-float": I, "list": W, "dict": W},
+}
+# documented type in OPTIONS -> (row of TYPE_VERDICTS, null is a documented value)
+DOC_TYPE_ROW = {
+    "int": ("int", False), "int|none": ("int", True), "number": ("number", False), "number|none": ("number", True),
+    "bool": ("bool", False), "str": ("str", False), "str|none": ("str", True), "enum": ("enum", False),
+    "list[str]": ("list", False), "list[exitReason]": ("list", False), "list[executor]": ("list", False),
+    "memory": ("memory", True),
+}
+# the two descriptions of the option disagree (schema: integer, DSL model: float): a float is not judged
+FLOAT_AMBIGUOUS = {("resourceManager", "kubernetes", "gracePeriod")}
+# not a component option / structural keys whose mistyping is a different fault (kept to the legacy samples)
+LEGACY_ONLY = {("references",), ("stage",), ("variables",), ("executors", "pre"), ("executors", "post"),
+               ("command", "executable"), ("command", "arguments"), ("command", "environment")}
+
+
+def mistypings(path) -> List[Tuple[Any, str, str]]:
+    """every mistyping of the option at path: (value, class, verdict).  The legacy samples of OPTIONS (verdict
+    wrong) first, then one entry per (kind, sample value) derived from the documented type."""
+    doc_type, _, legacy = OPTIONS[path]
+    out: List[Tuple[Any, str, str]] = [(v, c, W) for v, c in legacy]
+    if path in LEGACY_ONLY or doc_type not in DOC_TYPE_ROW:
+        return out
+    row, none_ok = DOC_TYPE_ROW[doc_type]
+    for kind, verdict in TYPE_VERDICTS[row].items():
+        if kind == "null" and none_ok:
+            continue
+        if path in FLOAT_AMBIGUOUS and kind.endswith("float"):
+            verdict = I
+        for v in KIND_VALUES[kind]:
+            if row == "bool" and kind == "int" and v not in (0, 1, 2):
+                continue
+            out.append((copy.deepcopy(v), "%s-for-%s" % (kind, row), verdict))
+    return out
 
 
 def cid(c) -> str:
@@ -784,21 +858,78 @@ def mutants(rnd, base: Dict[str, Any], all_values: bool = True) -> List[Dict[str
                     break
             (present if ok else absent).append(path)
         rnd.shuffle(absent)
-        for path in present + absent[:2]:
+        positions = present + absent[:2]
+        repl = ("workflowAttributes", "replicate")
+        if repl not in positions and rnd.random() < 0.5:
+            positions.append(repl)               # the integer option that the replication step reads by itself
+        st = c.get("stage", 0)
+        for path in positions:
             if path == ("stage",) or path == ("references",):
                 if path not in present:
                     continue
-            wrong = OPTIONS[path][2]
-            if not all_values:
-                wrong = [wrong[rnd.randrange(len(wrong))]]      # every position, one wrong value each
-            for val, cls in wrong:
+            every = mistypings(path)
+            legacy = [m for m in every if m[2] == W][:len(OPTIONS[path][2])]
+            derived: Dict[str, List[Any]] = {}
+            for val, cls, verdict in every[len(legacy):]:
+                if verdict == W:
+                    derived.setdefault(cls, []).append(val)
+            ambiguous = [m for m in every if m[2] == I]
+
+            def pick_derived(n):
+                classes = sorted(derived)
+                out_ = []
+                for _ in range(min(n, len(classes))):
+                    # scalar kinds are what the legacy samples do not cover: three times the weight of containers
+                    weights = [1 if (k.startswith("list-") or k.startswith("dict-")) else 3 for k in classes]
+                    k = rnd.choices(classes, weights)[0]
+                    classes.remove(k)
+                    out_.append((rnd.choice(derived[k]), k))
+                return out_
+
+            if all_values:
+                wrong = [(v, k) for v, k, _ in legacy] + pick_derived(2)
+            elif derived and rnd.random() < 0.65:
+                wrong = pick_derived(1)
+            else:
+                v, k, _ = legacy[rnd.randrange(len(legacy))]
+                wrong = [(v, k)]                 # every position, one wrong value each
+            todo = [(v, k, False) for v, k in wrong]
+            if ambiguous and rnd.random() < (0.3 if all_values else 0.2):
+                v, k, _ = ambiguous[rnd.randrange(len(ambiguous))]
+                todo.append((v, k, True))
+            for val, cls, info in todo:
+                # where the option is written: the component body, the component's override for the platform being
+                # loaded, or a blueprint (global / stage) of the loaded or the default platform.  A blueprint only
+                # for an option the body does not set (no shadowing: the written value is the effective one)
+                locs = ["body"]
+                if path not in LEGACY_ONLY:
+                    locs = ["body"] * 5 + ["override"] * 2
+                    if path not in present:
+                        locs += ["blueprint-global", "blueprint-stage", "blueprint-global-default" if platform else "blueprint-stage"]
+                loc = rnd.choice(locs)
                 d = copy.deepcopy(doc)
-                n = d["components"][i]
+                plat = platform or "default"
+                if loc == "body":
+                    n = d["components"][i]
+                elif loc == "override":
+                    n = d["components"][i].setdefault("override", {}).setdefault(plat, {})
+                elif loc == "blueprint-global":
+                    n = d.setdefault("blueprint", {}).setdefault(plat, {}).setdefault("global", {})
+                elif loc == "blueprint-global-default":
+                    n = d.setdefault("blueprint", {}).setdefault("default", {}).setdefault("global", {})
+                else:
+                    n = d.setdefault("blueprint", {}).setdefault(plat, {}).setdefault("stages", {}).setdefault(st, {})
                 for k in path[:-1]:
-                    n = n.setdefault(k, {})
+                    if not isinstance(n.get(k), dict):
+                        n[k] = {}
+                    n = n[k]
                 n[path[-1]] = copy.deepcopy(val)
-                add("wrong-type", cls, d, [cid(c)] + list(path), doc_type=OPTIONS[path][0], value=val,
-                    was_present=path in present)
+                if info:
+                    add("mistype_%s_%s" % (cls, "body" if loc == "body" else "layer"), "info", d, [cid(c)] + list(path),
+                        doc_type=OPTIONS[path][0], value=val, location=loc, info_only=True)
+                else:
+                    add("wrong-type", cls, d, [cid(c)] + list(path), doc_type=OPTIONS[path][0], value=val,
+                        was_present=path in present, location=loc)
     # -- remove a variable that a component uses and that exactly one layer defines
     refvars = set()
     for sp in base.get("spelled", []):
